@@ -39,6 +39,12 @@ UVL_OPERATORS: dict[ASTOperation, str] = {ASTOperation.AND: "&",
                                           }
 
 
+UVL_RESERVED_WORDS: set[str] = {'include', 'namespace', 'imports', 'as', 'features', 'constraints',
+                                'constraint', 'cardinality', 'mandatory', 'optional', 'alternative',
+                                'or', 'sum', 'avg', 'len', 'floor', 'ceil', 'true', 'false',
+                                'Boolean', 'Integer', 'Real', 'String', 'Arithmetic', 'Type'}
+
+
 class UVLWriter(ModelToText):
     @staticmethod
     def get_destination_extension() -> str:
@@ -162,7 +168,16 @@ def safename(name: str) -> str:
 def safe_simple_name(name: str) -> str:
     if name.startswith("'") and name.endswith("'"):
         return name
-    return f'"{name}"' if any(char not in safecharacters() for char in name) else name
+    return name if is_plain_identifier(name) else f'"{name}"'
+
+
+def is_plain_identifier(name: str) -> bool:
+    """Return true if the name can be written in UVL without quotes: a letter followed by
+    letters, digits or underscores, which is not a reserved word of the language."""
+    return (name != ''
+            and name[0] in string.ascii_letters
+            and all(char in safecharacters() for char in name)
+            and name not in UVL_RESERVED_WORDS)
 
 
 def safecharacters() -> str:
